@@ -12,8 +12,8 @@ using xmlref::Node;
 
 namespace {
 const char* const NAMES[] = {"a", "b", "item", "x1", "_n", "A.b-c", "node_2", "t"};
-const char* const VALS[] = {"", "v", "two words", "q\"uote", "ap'os", "a&b", "<tag>", "&amp;", "&#65;", "line\nbreak", "cr\rlf\r\n", "tab\there", "\xc3\xa4\xe2\x82\xac", "\x01\x1f", "a=b/c", "&lt", "x;y", " lead", "trail ", "--", "]]>"};
-const char* const TEXTS[] = {"x", "hello world", " padded ", "a&b", "1<2", "2>1", "\"q\"", "it's", "line\nbreak", "\xc3\xb6", "&amp;", "&#66;", "a;b", "=", "/", "-->", "<!--", "x\r\ny", "/>", "?>"};
+const char* const VALS[] = {"", "v", "two words", "q\"uote", "ap'os", "a&b", "<tag>", "&amp;", "&#65;", "line\nbreak", "cr\rlf\r\n", "tab\there", "\xc3\xa4\xe2\x82\xac", "\xf0\x9f\x98\x80 \xf4\x8f\xbf\xbf", "\x01\x1f", "a=b/c", "&lt", "x;y", " lead", "trail ", "--", "]]>"};
+const char* const TEXTS[] = {"x", "hello world", " padded ", "a&b", "1<2", "2>1", "\"q\"", "it's", "line\nbreak", "\xc3\xb6", "smile \xf0\x9f\x98\x80", "&amp;", "&#66;", "a;b", "=", "/", "-->", "<!--", "x\r\ny", "/>", "?>"};
 
 struct Deco { uint64_t s; uint64_t next() { s = s * 6364136223846793005ull + 1442695040888963407ull; return s >> 33; } };
 std::string gap(Deco& d, bool allowText = false) {
@@ -29,8 +29,18 @@ std::string gap(Deco& d, bool allowText = false) {
   }
 }
 std::string esc(const std::string& s, Deco& d, bool attr) {
-  std::string r; char b[16];
-  for (unsigned char c : s) {
+  std::string r; char b[24];
+  for (size_t si = 0; si < s.size(); ++si) {
+    unsigned char c = (unsigned char)s[si];
+    // a well-formed multi-byte UTF-8 sequence may be written as a decimal character reference (up to 7 digits, or zero padded)
+    if (c >= 0xC2 && c <= 0xF4) {
+      int len = c >= 0xF0 ? 4 : c >= 0xE0 ? 3 : 2; bool ok = si + (size_t)len <= s.size();
+      unsigned cp = c & (0xFF >> (len + 1));
+      for (int k = 1; ok && k < len; ++k) { unsigned char cc = (unsigned char)s[si + (size_t)k]; if ((cc & 0xC0) != 0x80) ok = false; else cp = (cp << 6) | (cc & 0x3F); }
+      if (ok && cp <= 0x10FFFF && !(cp >= 0xD800 && cp <= 0xDFFF) && cp >= (len == 2 ? 0x80u : len == 3 ? 0x800u : 0x10000u) && d.next() % 3 == 0) {
+        snprintf(b, sizeof b, (d.next() & 3) == 0 ? "&#%08u;" : "&#%u;", cp); r += b; si += (size_t)len - 1; continue;
+      }
+    }
     if (c == '&') r += "&amp;"; else if (c == '<') r += "&lt;"; else if (c == '>') r += (d.next() & 1) ? "&gt;" : ">";
     else if (c == '"') r += "&quot;"; else if (c == '\'') r += (d.next() & 1) ? "&apos;" : (attr ? "&apos;" : "'");
     else if (c == '\n' || c == '\r') { if (attr || (d.next() & 1)) { snprintf(b, sizeof b, "&#%u;", c); r += b; } else r += (char)c; }
